@@ -150,6 +150,7 @@ def self_check(ck):
 def run_unit(ck, unit):
     name, rule = unit
     quick = ck.tier == 'quick'
+    ck.handles_probes = True
     yaml = templates.render(rule)
     br = ck.bridge()
     r = br.call(cmd='load', yaml=yaml, opts=None)
